@@ -24,7 +24,7 @@ package main
 //	x := e / x = e / x++ / if c { x = e } / if c { x++ }                              -> let x := …
 //	if c { return SENTINEL }                                                         -> if c then Act.ret … else …
 //	a == b - k  (ints)                                                               -> a + k = b
-//	errors.Is(err, decoders.ErrX)                                                    -> errV = RunRes.errX   (err is one of the sentinels or opaque)
+//	errors.Is(err, decoders.ErrX)                                                    -> errV = RunRes.errX   (err is one of the provloopsSentinels or opaque)
 //	select { case <-ctx.Done(): return R; case sink <- ammo: S }                       -> Act.offer i (state after S), doneRes := R
 //	if !confutil.IsChosenCase(…) { continue }                                        -> if ¬ chosen then Act.tau … else …
 //
@@ -51,31 +51,31 @@ func init() {
 		pkgPath:   "github.com/yandex/pandora/components/providers/http/provider",
 		module:    "ProvLoops",
 		namespace: "Pandora.Gen.ProvLoops",
-		imports:   []string{"Pandora.Model.C08Mach"},
+		imports:   []string{"Pandora.Model.C08Mach", "Pandora.Model.C08Scan"},
 		extra:     provloopsExtra,
 	}
 }
 
-type pl struct {
+type provloopsPl struct {
 	t    *tr
 	pkg  *packages.Package
 	vars map[string]string // normalised Go source of an expression -> Lean term
 	ctx  string            // name of the function being translated (messages)
 }
 
-func (x *pl) src(n ast.Node) string {
+func (x *provloopsPl) src(n ast.Node) string {
 	var b bytes.Buffer
 	_ = printer.Fprint(&b, x.pkg.Fset, n)
 	return strings.Join(strings.Fields(b.String()), " ")
 }
 
-func (x *pl) fail(n ast.Node, format string, a ...any) string {
+func (x *provloopsPl) fail(n ast.Node, format string, a ...any) string {
 	msg := fmt.Sprintf("%s: unsupported (provloops %s): %s", x.pkg.Fset.Position(n.Pos()), x.ctx, fmt.Sprintf(format, a...))
 	x.t.errs = append(x.t.errs, msg)
 	return "(UNSUPPORTED)"
 }
 
-func plMethod(p *packages.Package, recvType, name string) *ast.FuncDecl {
+func provloopsMethod(p *packages.Package, recvType, name string) *ast.FuncDecl {
 	for _, f := range p.Syntax {
 		for _, d := range f.Decls {
 			fd, ok := d.(*ast.FuncDecl)
@@ -106,7 +106,7 @@ func plMethod(p *packages.Package, recvType, name string) *ast.FuncDecl {
 	return nil
 }
 
-var sentinels = map[string]string{
+var provloopsSentinels = map[string]string{
 	"decoders.ErrPassLimit": "RunRes.errPasses", "ErrPassLimit": "RunRes.errPasses",
 	"decoders.ErrAmmoLimit": "RunRes.errLimit", "ErrAmmoLimit": "RunRes.errLimit",
 	"decoders.ErrNoAmmo": "RunRes.errNoAmmo", "ErrNoAmmo": "RunRes.errNoAmmo",
@@ -114,7 +114,7 @@ var sentinels = map[string]string{
 }
 
 // expr: pure Nat / Prop valued expressions over x.vars.
-func (x *pl) expr(e ast.Expr) string {
+func (x *provloopsPl) expr(e ast.Expr) string {
 	info := x.pkg.TypesInfo
 	if v, ok := x.vars[x.src(e)]; ok {
 		return v
@@ -143,7 +143,7 @@ func (x *pl) expr(e ast.Expr) string {
 			return x.expr(v.Args[0])
 		}
 		if s := x.src(v.Fun); (s == "errors.Is" || s == "xerrors.Is") && len(v.Args) == 2 && x.src(v.Args[0]) == "err" {
-			if r, ok := sentinels[x.src(v.Args[1])]; ok && r != "RunRes.nil" {
+			if r, ok := provloopsSentinels[x.src(v.Args[1])]; ok && r != "RunRes.nil" {
 				return "(errV = " + r + ")"
 			}
 		}
@@ -153,10 +153,10 @@ func (x *pl) expr(e ast.Expr) string {
 			op := map[token.Token]string{token.EQL: "=", token.NEQ: "≠", token.LSS: "<", token.LEQ: "≤", token.GTR: ">", token.GEQ: "≥"}[v.Op]
 			lx, ly := ast.Expr(v.X), ast.Expr(v.Y)
 			addL, addR := "", ""
-			if b, ok := unparen(ly).(*ast.BinaryExpr); ok && b.Op == token.SUB {
+			if b, ok := provloopsUnparen(ly).(*ast.BinaryExpr); ok && b.Op == token.SUB {
 				ly, addL = b.X, x.expr(b.Y)
 			}
-			if b, ok := unparen(lx).(*ast.BinaryExpr); ok && b.Op == token.SUB {
+			if b, ok := provloopsUnparen(lx).(*ast.BinaryExpr); ok && b.Op == token.SUB {
 				lx, addR = b.X, x.expr(b.Y)
 			}
 			l, r := x.expr(lx), x.expr(ly)
@@ -187,7 +187,7 @@ func (x *pl) expr(e ast.Expr) string {
 	return x.fail(e, "expression %s", x.src(e))
 }
 
-func unparen(e ast.Expr) ast.Expr {
+func provloopsUnparen(e ast.Expr) ast.Expr {
 	for {
 		p, ok := e.(*ast.ParenExpr)
 		if !ok {
@@ -198,13 +198,13 @@ func unparen(e ast.Expr) ast.Expr {
 }
 
 // lhs: the Lean variable an assignment target stands for
-func (x *pl) lhs(e ast.Expr) (string, bool) {
+func (x *provloopsPl) lhs(e ast.Expr) (string, bool) {
 	v, ok := x.vars[x.src(e)]
 	return v, ok
 }
 
 // isCtxErrCheck: `if err != nil { [if !errors.Is(err, context.Canceled) { err = wrap }]; return err }` right after `err := ctx.Err()`
-func (x *pl) isCtxErrCheck(s ast.Stmt) bool {
+func (x *provloopsPl) isCtxErrCheck(s ast.Stmt) bool {
 	is, ok := s.(*ast.IfStmt)
 	if !ok || is.Init != nil || is.Else != nil || x.src(is.Cond) != "err != nil" || len(is.Body.List) == 0 {
 		return false
@@ -223,7 +223,7 @@ func (x *pl) isCtxErrCheck(s ast.Stmt) bool {
 }
 
 // doneBranch: the statements of `case <-ctx.Done():` must end in a return; its result class
-func (x *pl) doneBranch(cc *ast.CommClause) string {
+func (x *provloopsPl) doneBranch(cc *ast.CommClause) string {
 	if len(cc.Body) == 0 {
 		return x.fail(cc, "empty Done branch")
 	}
@@ -248,15 +248,15 @@ func (x *pl) doneBranch(cc *ast.CommClause) string {
 	return x.fail(ret, "Done branch returns %s", x.src(ret.Results[0]))
 }
 
-type selectInfo struct {
+type provloopsSelectInfo struct {
 	done     string     // RunRes of the Done branch
 	sendBody []ast.Stmt // statements of the send case
 	sendVal  string     // source of the sent value
 	sink     string     // source of the channel
 }
 
-func (x *pl) selectStmt(s *ast.SelectStmt) (selectInfo, bool) {
-	var si selectInfo
+func (x *provloopsPl) selectStmt(s *ast.SelectStmt) (provloopsSelectInfo, bool) {
+	var si provloopsSelectInfo
 	if len(s.Body.List) != 2 {
 		x.fail(s, "select with %d cases", len(s.Body.List))
 		return si, false
@@ -285,7 +285,7 @@ func (x *pl) selectStmt(s *ast.SelectStmt) (selectInfo, bool) {
 
 // guards translates a statement list made of pure updates and guarded returns; `fall` renders what follows when
 // the list falls through, `special` may take over a statement (returns handled=true and the full rest translation).
-type guardCtx struct {
+type provloopsGuardCtx struct {
 	ret      func(r *ast.ReturnStmt) string // Lean term for a return statement
 	brk      string                         // Lean term for `break` ("" = not allowed)
 	cont     string                         // Lean term for `continue`
@@ -295,7 +295,7 @@ type guardCtx struct {
 	fall     func(ind string) string
 }
 
-func (x *pl) guards(stmts []ast.Stmt, ind string, g *guardCtx) string {
+func (x *provloopsPl) guards(stmts []ast.Stmt, ind string, g *provloopsGuardCtx) string {
 	if len(stmts) == 0 {
 		return g.fall(ind)
 	}
@@ -372,7 +372,7 @@ func (x *pl) guards(stmts []ast.Stmt, ind string, g *guardCtx) string {
 }
 
 // retSentinel: `return SENTINEL` / `return nil, SENTINEL` -> Act.ret …
-func (x *pl) retSentinel(wrap string) func(r *ast.ReturnStmt) string {
+func (x *provloopsPl) retSentinel(wrap string) func(r *ast.ReturnStmt) string {
 	return func(r *ast.ReturnStmt) string {
 		if len(r.Results) == 0 {
 			return x.fail(r, "bare return")
@@ -381,7 +381,7 @@ func (x *pl) retSentinel(wrap string) func(r *ast.ReturnStmt) string {
 		if last == "err" {
 			return wrap + "errV"
 		}
-		if v, ok := sentinels[last]; ok {
+		if v, ok := provloopsSentinels[last]; ok {
 			return wrap + v
 		}
 		if strings.HasPrefix(last, "errors.New(") || strings.HasPrefix(last, "errors.Wrap") || strings.HasPrefix(last, "fmt.Errorf(") || strings.HasPrefix(last, "xerrors.Errorf(") {
@@ -391,7 +391,7 @@ func (x *pl) retSentinel(wrap string) func(r *ast.ReturnStmt) string {
 	}
 }
 
-func forBody(fd *ast.FuncDecl) *ast.ForStmt {
+func provloopsForBody(fd *ast.FuncDecl) *ast.ForStmt {
 	var out *ast.ForStmt
 	for _, s := range fd.Body.List {
 		if f, ok := s.(*ast.ForStmt); ok && out == nil {
@@ -403,7 +403,7 @@ func forBody(fd *ast.FuncDecl) *ast.ForStmt {
 
 // deferCloses: does the function defer close(<ch>) (directly or inside a deferred func literal)?  Returns the
 // channel expression and, for a deferred literal, its statements.
-func (x *pl) deferCloses(fd *ast.FuncDecl) (string, []ast.Stmt) {
+func (x *provloopsPl) deferCloses(fd *ast.FuncDecl) (string, []ast.Stmt) {
 	for _, s := range fd.Body.List {
 		d, ok := s.(*ast.DeferStmt)
 		if !ok {
@@ -428,7 +428,7 @@ func (x *pl) deferCloses(fd *ast.FuncDecl) (string, []ast.Stmt) {
 }
 
 // chanCapOf finds `make(chan T[, n])` inside node and returns its capacity as Lean text.
-func (x *pl) chanCapOf(node ast.Node, want string) string {
+func (x *provloopsPl) chanCapOf(node ast.Node, want string) string {
 	found := ""
 	ast.Inspect(node, func(n ast.Node) bool {
 		c, ok := n.(*ast.CallExpr)
@@ -468,7 +468,7 @@ func (x *pl) chanCapOf(node ast.Node, want string) string {
 }
 
 // requireMin0: int config fields read as Nat must be validated non-negative
-func (x *pl) requireMin0(structName string, fields ...string) {
+func (x *provloopsPl) requireMin0(structName string, fields ...string) {
 	obj := x.pkg.Types.Scope().Lookup(structName)
 	if obj == nil {
 		x.fail(x.pkg.Syntax[0], "struct %s not found", structName)
@@ -498,8 +498,8 @@ func (x *pl) requireMin0(structName string, fields ...string) {
 	}
 }
 
-// plLoadAll loads all the packages of the area with ONE packages.Load call (shared dependency graph).
-func plLoadAll(paths ...string) func(string) *packages.Package {
+// provloopsLoadAll loads all the packages of the area with ONE packages.Load call (shared dependency graph).
+func provloopsLoadAll(paths ...string) func(string) *packages.Package {
 	// dependencies are type-checked from export data (no NeedDeps): only the listed packages are parsed
 	cfg := &packages.Config{Mode: packages.NeedName | packages.NeedSyntax | packages.NeedTypes | packages.NeedTypesInfo |
 		packages.NeedFiles | packages.NeedImports, Dir: repo, BuildFlags: []string{"-tags=verif"}}
@@ -529,7 +529,7 @@ func plLoadAll(paths ...string) func(string) *packages.Package {
 func provloopsExtra(t *tr) string {
 	var b strings.Builder
 	b.WriteString("open Pandora.Model.C08\n\n")
-	load := plLoadAll(
+	load := provloopsLoadAll(
 		"github.com/yandex/pandora/components/providers/http",
 		"github.com/yandex/pandora/components/providers/http/decoders",
 		"github.com/yandex/pandora/components/providers/scenario",
@@ -545,31 +545,33 @@ func provloopsExtra(t *tr) string {
 
 	// ------------------------------------------------------------ components/providers/http/provider
 	{
-		x := &pl{t: t, pkg: t.pkg, ctx: "http/provider"}
+		x := &provloopsPl{t: t, pkg: t.pkg, ctx: "http/provider"}
 		// runPreloaded loop body
-		if fd := plMethod(x.pkg, "Provider", "runPreloaded"); fd == nil {
+		if fd := provloopsMethod(x.pkg, "Provider", "runPreloaded"); fd == nil {
 			t.errs = append(t.errs, "provloops: (*Provider).runPreloaded not found")
 		} else {
 			b.WriteString(x.replayLoop(fd, "runPreloaded", "p.Passes", "p.Limit", "p.ammos", "p.Sink"))
 		}
 		// runFullScan loop body
-		if fd := plMethod(x.pkg, "Provider", "runFullScan"); fd == nil {
+		if fd := provloopsMethod(x.pkg, "Provider", "runFullScan"); fd == nil {
 			t.errs = append(t.errs, "provloops: (*Provider).runFullScan not found")
 		} else {
 			b.WriteString(x.fullScanLoop(fd))
 		}
-		// Run: mapping of the preloaded sentinels, deferred close
-		if fd := plMethod(x.pkg, "Provider", "Run"); fd == nil {
+		// Run: mapping of the preloaded provloopsSentinels, deferred close
+		if fd := provloopsMethod(x.pkg, "Provider", "Run"); fd == nil {
 			t.errs = append(t.errs, "provloops: (*Provider).Run not found")
 		} else {
 			b.WriteString(x.httpRun(fd))
 		}
+		// loadAmmo: what Run gets when the preload failed; which ammo are kept
+		b.WriteString(provloopsHTTPLoad(t, t.pkg))
 	}
 	// ------------------------------------------------------------ components/providers/http (NewProvider)
 	{
 		p := load("github.com/yandex/pandora/components/providers/http")
-		x := &pl{t: t, pkg: p, ctx: "http.NewProvider", vars: map[string]string{}}
-		if fd := plMethod(p, "", "NewProvider"); fd == nil {
+		x := &provloopsPl{t: t, pkg: p, ctx: "http.NewProvider", vars: map[string]string{}}
+		if fd := provloopsMethod(p, "", "NewProvider"); fd == nil {
 			t.errs = append(t.errs, "provloops: http.NewProvider not found")
 		} else {
 			fmt.Fprintf(&b, "/-- regenerated from `components/providers/http/provider.go` NewProvider: capacity of `Sink` -/\ndef chanCapHttp : Nat := %s\n\n", x.chanCapOf(fd, "http.NewProvider"))
@@ -602,18 +604,20 @@ func provloopsExtra(t *tr) string {
 	// ------------------------------------------------------------ jsonline scanAmmos
 	{
 		p := load("github.com/yandex/pandora/components/providers/http/decoders")
-		x := &pl{t: t, pkg: p, ctx: "decoders.scanAmmos"}
-		if fd := plMethod(p, "jsonlineDecoder", "scanAmmos"); fd == nil {
+		x := &provloopsPl{t: t, pkg: p, ctx: "decoders.scanAmmos"}
+		if fd := provloopsMethod(p, "jsonlineDecoder", "scanAmmos"); fd == nil {
 			t.errs = append(t.errs, "provloops: (*jsonlineDecoder).scanAmmos not found")
 		} else {
 			b.WriteString(x.scanAmmos(fd))
 		}
+		// the reading loops of the four Scan methods, LoadAmmo
+		b.WriteString(provloopsScanExtra(t, p))
 	}
 	// ------------------------------------------------------------ scenario provider
 	{
 		p := load("github.com/yandex/pandora/components/providers/scenario")
-		x := &pl{t: t, pkg: p, ctx: "scenario.Run"}
-		if fd := plMethod(p, "Provider", "Run"); fd == nil {
+		x := &provloopsPl{t: t, pkg: p, ctx: "scenario.Run"}
+		if fd := provloopsMethod(p, "Provider", "Run"); fd == nil {
 			t.errs = append(t.errs, "provloops: scenario (*Provider[A]).Run not found")
 		} else {
 			b.WriteString(x.replayLoop(fd, "scenarioRun", "p.cfg.Passes", "p.cfg.Limit", "p.ammos", "p.sink"))
@@ -621,7 +625,7 @@ func provloopsExtra(t *tr) string {
 			x.vars = map[string]string{"err": "errV"}
 			mapping := ""
 			if ch == "p.sink" && stmts != nil {
-				g := &guardCtx{ret: x.retSentinel(""), skip: func(s string) bool { return s == "close(p.sink)" }, fall: func(ind string) string { return ind + "errV" }}
+				g := &provloopsGuardCtx{ret: x.retSentinel(""), skip: func(s string) bool { return s == "close(p.sink)" }, fall: func(ind string) string { return ind + "errV" }}
 				mapping = x.guards(stmts, "  ", g)
 			} else {
 				mapping = "  " + x.fail(fd, "scenario Run does not defer close(p.sink) in a func literal")
@@ -630,8 +634,8 @@ func provloopsExtra(t *tr) string {
 		}
 		for _, sub := range []struct{ path, name string }{{"github.com/yandex/pandora/components/providers/scenario/http", "chanCapHttpScenario"}, {"github.com/yandex/pandora/components/providers/scenario/grpc", "chanCapGrpcScenario"}} {
 			sp := load(sub.path)
-			sx := &pl{t: t, pkg: sp, ctx: sub.path, vars: map[string]string{}}
-			if fd := plMethod(sp, "", "NewProvider"); fd == nil {
+			sx := &provloopsPl{t: t, pkg: sp, ctx: sub.path, vars: map[string]string{}}
+			if fd := provloopsMethod(sp, "", "NewProvider"); fd == nil {
 				t.errs = append(t.errs, "provloops: "+sub.path+".NewProvider not found")
 			} else {
 				fmt.Fprintf(&b, "/-- regenerated from `%s` NewProvider: capacity of the sink -/\ndef %s : Nat := %s\n\n", strings.TrimPrefix(sub.path, "github.com/yandex/pandora/"), sub.name, sx.chanCapOf(fd, sub.path))
@@ -641,13 +645,13 @@ func provloopsExtra(t *tr) string {
 	// ------------------------------------------------------------ grpc provider + grpcjson
 	{
 		p := load("github.com/yandex/pandora/components/providers/grpc")
-		x := &pl{t: t, pkg: p, ctx: "grpc.Provider", vars: map[string]string{}}
-		if fd := plMethod(p, "", "NewProvider"); fd == nil {
+		x := &provloopsPl{t: t, pkg: p, ctx: "grpc.Provider", vars: map[string]string{}}
+		if fd := provloopsMethod(p, "", "NewProvider"); fd == nil {
 			t.errs = append(t.errs, "provloops: grpc NewProvider not found")
 		} else {
 			fmt.Fprintf(&b, "/-- regenerated from `components/providers/grpc/provider.go` NewProvider: capacity of `Sink` -/\ndef chanCapGrpc : Nat := %s\n\n", x.chanCapOf(fd, "grpc.NewProvider"))
 		}
-		if fd := plMethod(p, "Provider", "Run"); fd == nil {
+		if fd := provloopsMethod(p, "Provider", "Run"); fd == nil {
 			t.errs = append(t.errs, "provloops: grpc (*Provider).Run not found")
 		} else {
 			ch, _ := x.deferCloses(fd)
@@ -660,9 +664,9 @@ func provloopsExtra(t *tr) string {
 			fmt.Fprintf(&b, "/-- regenerated from `components/providers/grpc/provider.go` Run: `defer close(p.Sink)`, result = result of start -/\ndef grpcRunCloses : Bool := %v\n\n", ch == "p.Sink")
 		}
 		gp := load("github.com/yandex/pandora/components/providers/grpc/grpcjson")
-		gx := &pl{t: t, pkg: gp, ctx: "grpcjson.start"}
+		gx := &provloopsPl{t: t, pkg: gp, ctx: "grpcjson.start"}
 		gx.requireMin0("Config", "Limit", "Passes")
-		if fd := plMethod(gp, "Provider", "start"); fd == nil {
+		if fd := provloopsMethod(gp, "Provider", "start"); fd == nil {
 			t.errs = append(t.errs, "provloops: grpcjson (*Provider).start not found")
 		} else {
 			b.WriteString(gx.grpcStart(fd))
@@ -671,16 +675,16 @@ func provloopsExtra(t *tr) string {
 	// ------------------------------------------------------------ core/provider: queue + DecodeProvider
 	{
 		p := load("github.com/yandex/pandora/core/provider")
-		x := &pl{t: t, pkg: p, ctx: "core/provider", vars: map[string]string{"conf.AmmoQueueSize": "ammoQueueSize"}}
+		x := &provloopsPl{t: t, pkg: p, ctx: "core/provider", vars: map[string]string{"conf.AmmoQueueSize": "ammoQueueSize"}}
 		x.requireMin0("DecodeProviderConfig", "Limit", "Passes")
-		if fd := plMethod(p, "", "NewAmmoQueue"); fd == nil {
+		if fd := provloopsMethod(p, "", "NewAmmoQueue"); fd == nil {
 			t.errs = append(t.errs, "provloops: NewAmmoQueue not found")
 		} else {
 			fmt.Fprintf(&b, "/-- regenerated from `core/provider/queue.go` NewAmmoQueue: capacity of `OutQueue` -/\ndef chanCapQueue (ammoQueueSize : Nat) : Nat := %s\n\n", x.chanCapOf(fd, "NewAmmoQueue"))
 		}
 		// DefaultAmmoQueueConfig: AmmoQueueSize: DefaultAmmoQueueSize
 		def := ""
-		if fd := plMethod(p, "", "DefaultAmmoQueueConfig"); fd != nil {
+		if fd := provloopsMethod(p, "", "DefaultAmmoQueueConfig"); fd != nil {
 			ast.Inspect(fd, func(n ast.Node) bool {
 				if kv, ok := n.(*ast.KeyValueExpr); ok && x.src(kv.Key) == "AmmoQueueSize" {
 					if tv, ok := p.TypesInfo.Types[kv.Value]; ok && tv.Value != nil {
@@ -694,7 +698,7 @@ func provloopsExtra(t *tr) string {
 			def = x.fail(p.Syntax[0], "DefaultAmmoQueueConfig().AmmoQueueSize is not a constant")
 		}
 		fmt.Fprintf(&b, "/-- regenerated from `core/provider/queue.go` DefaultAmmoQueueConfig -/\ndef defaultAmmoQueueSize : Nat := %s\n\n", def)
-		if fd := plMethod(p, "DecodeProvider", "Run"); fd == nil {
+		if fd := provloopsMethod(p, "DecodeProvider", "Run"); fd == nil {
 			t.errs = append(t.errs, "provloops: (*DecodeProvider).Run not found")
 		} else {
 			b.WriteString(x.decodeRun(fd))
@@ -703,15 +707,15 @@ func provloopsExtra(t *tr) string {
 	// ------------------------------------------------------------ lib/ioutil2 MultiPassReader
 	{
 		p := load("github.com/yandex/pandora/lib/ioutil2")
-		x := &pl{t: t, pkg: p, ctx: "ioutil2"}
+		x := &provloopsPl{t: t, pkg: p, ctx: "ioutil2"}
 		b.WriteString(x.multiPass())
 	}
 	// ------------------------------------------------------------ engine awaitRun (provider case) + errutil.IsCtxError
 	{
 		p := load("github.com/yandex/pandora/core/engine")
-		x := &pl{t: t, pkg: p, ctx: "engine.awaitRun", vars: map[string]string{"errutil.IsCtxError(ah.runCtx, err)": "isCtxError"}}
+		x := &provloopsPl{t: t, pkg: p, ctx: "engine.awaitRun", vars: map[string]string{"errutil.IsCtxError(ah.runCtx, err)": "isCtxError"}}
 		cond := ""
-		if fd := plMethod(p, "runAwaitHandle", "awaitRun"); fd != nil {
+		if fd := provloopsMethod(p, "runAwaitHandle", "awaitRun"); fd != nil {
 			ast.Inspect(fd, func(n ast.Node) bool {
 				cc, ok := n.(*ast.CommClause)
 				if !ok || cc.Comm == nil || x.src(cc.Comm) != "err := <-ah.providerErr" {
@@ -734,9 +738,9 @@ func provloopsExtra(t *tr) string {
 		}
 		fmt.Fprintf(&b, "/-- regenerated from `core/engine/engine.go` awaitRun, `case err := <-ah.providerErr`: the pool fails with \"provider failed\" when …\n(`isCtxError` = errutil.IsCtxError(ah.runCtx, err)) -/\ndef providerFailsPool (isCtxError : Prop) : Prop := %s\n\n", cond)
 		ep := load("github.com/yandex/pandora/lib/errutil")
-		ex := &pl{t: t, pkg: ep, ctx: "errutil.IsCtxError", vars: map[string]string{"err == nil": "errNil", "ctx.Err() == errors.Cause(err)": "ctxErrIsCause"}}
+		ex := &provloopsPl{t: t, pkg: ep, ctx: "errutil.IsCtxError", vars: map[string]string{"err == nil": "errNil", "ctx.Err() == errors.Cause(err)": "ctxErrIsCause"}}
 		body := ""
-		if fd := plMethod(ep, "", "IsCtxError"); fd != nil && len(fd.Body.List) == 2 {
+		if fd := provloopsMethod(ep, "", "IsCtxError"); fd != nil && len(fd.Body.List) == 2 {
 			is, ok1 := fd.Body.List[0].(*ast.IfStmt)
 			ret, ok2 := fd.Body.List[1].(*ast.ReturnStmt)
 			if ok1 && ok2 && is.Else == nil && len(is.Body.List) == 1 && ex.src(is.Body.List[0]) == "return true" && len(ret.Results) == 1 {
@@ -753,12 +757,12 @@ func provloopsExtra(t *tr) string {
 }
 
 // replayLoop: runPreloaded / scenario Run: the statements before the loop and the loop body.
-func (x *pl) replayLoop(fd *ast.FuncDecl, name, passes, limit, ammos, sink string) string {
+func (x *provloopsPl) replayLoop(fd *ast.FuncDecl, name, passes, limit, ammos, sink string) string {
 	x.vars = map[string]string{
 		passes: "passes", limit: "limit", "ammoNum": "ammoNum", "passNum": "passNum", "length": "length", "i": "i",
 		"uint(len(" + ammos + "))": "length",
 	}
-	loop := forBody(fd)
+	loop := provloopsForBody(fd)
 	if loop == nil || loop.Cond != nil || loop.Init != nil || loop.Post != nil {
 		return x.fail(fd, "no plain `for { … }` loop")
 	}
@@ -774,7 +778,7 @@ func (x *pl) replayLoop(fd *ast.FuncDecl, name, passes, limit, ammos, sink strin
 		return strings.HasPrefix(s, "const op") || s == "p.Deps = deps" || strings.HasPrefix(s, "defer func()") ||
 			s == "length := uint(len("+ammos+"))"
 	}
-	preG := &guardCtx{ret: x.retSentinel("some "), skip: skipPre, fall: func(ind string) string {
+	preG := &provloopsGuardCtx{ret: x.retSentinel("some "), skip: skipPre, fall: func(ind string) string {
 		return ind + "(none : Option RunRes)"
 	}, typeOf: func(string) string { return "Nat" }}
 	// the initial values of the counters must be 0
@@ -799,7 +803,7 @@ func (x *pl) replayLoop(fd *ast.FuncDecl, name, passes, limit, ammos, sink strin
 
 	var done string
 	item := ""
-	g := &guardCtx{ret: x.retSentinel("Act.ret ")}
+	g := &provloopsGuardCtx{ret: x.retSentinel("Act.ret ")}
 	g.special = func(s ast.Stmt, rest []ast.Stmt, ind string) (string, bool) {
 		if as, ok := s.(*ast.AssignStmt); ok && len(as.Lhs) == 1 && len(as.Rhs) == 1 && x.src(as.Lhs[0]) == "ammo" {
 			if ie, ok := as.Rhs[0].(*ast.IndexExpr); ok && x.src(ie.X) == ammos {
@@ -813,7 +817,7 @@ func (x *pl) replayLoop(fd *ast.FuncDecl, name, passes, limit, ammos, sink strin
 				return ind + x.fail(s, "send select shape"), true
 			}
 			done = si.done
-			gs := &guardCtx{ret: g.ret, fall: func(ind string) string { return ind + "Act.offer " + item + " (ammoNum, passNum)" }}
+			gs := &provloopsGuardCtx{ret: g.ret, fall: func(ind string) string { return ind + "Act.offer " + item + " (ammoNum, passNum)" }}
 			return x.guards(si.sendBody, ind, gs), true
 		}
 		return "", false
@@ -826,10 +830,10 @@ func (x *pl) replayLoop(fd *ast.FuncDecl, name, passes, limit, ammos, sink strin
 		"/-- regenerated from the body of the `for` loop of %s (state = ammoNum, passNum) -/\n"+
 		"def %sStep (passes limit length : Nat) (c : Bool) (ammoNum passNum : Nat) : Act (Nat × Nat) :=\n%s\n\n"+
 		"/-- regenerated: result of the `case <-ctx.Done()` branch of the send select of %s -/\ndef %sDone : RunRes := %s\n\n",
-		shortPath(pos.Filename), pos.Line, fd.Name.Name, name, preTxt, fd.Name.Name, name, body, fd.Name.Name, name, done)
+		provloopsShortPath(pos.Filename), pos.Line, fd.Name.Name, name, preTxt, fd.Name.Name, name, body, fd.Name.Name, name, done)
 }
 
-func shortPath(p string) string {
+func provloopsShortPath(p string) string {
 	if i := strings.Index(p, "/components/"); i >= 0 {
 		return p[i+1:]
 	}
@@ -843,11 +847,11 @@ func shortPath(p string) string {
 }
 
 // fullScanLoop: body of the loop of runFullScan.
-func (x *pl) fullScanLoop(fd *ast.FuncDecl) string {
+func (x *provloopsPl) fullScanLoop(fd *ast.FuncDecl) string {
 	x.vars = map[string]string{
 		"p.Limit": "limit", "ammoNum": "ammoNum", "passes != nil": "True", "passes.PassNum()": "passNum", "err": "errV",
 	}
-	loop := forBody(fd)
+	loop := provloopsForBody(fd)
 	if loop == nil || loop.Cond != nil || loop.Init != nil || loop.Post != nil {
 		return x.fail(fd, "no plain `for { … }` loop")
 	}
@@ -869,7 +873,7 @@ func (x *pl) fullScanLoop(fd *ast.FuncDecl) string {
 		x.fail(fd, "ammoNum is not initialised with uint(0)")
 	}
 	done := ""
-	g := &guardCtx{ret: x.retSentinel("Act.ret "), cont: "Act.tau ammoNum"}
+	g := &provloopsGuardCtx{ret: x.retSentinel("Act.ret "), cont: "Act.tau ammoNum"}
 	g.special = func(s ast.Stmt, rest []ast.Stmt, ind string) (string, bool) {
 		// if err := ctx.Err(); err != nil { … return err }
 		if is, ok := s.(*ast.IfStmt); ok && is.Init != nil && x.src(is.Init) == "err := ctx.Err()" {
@@ -887,7 +891,7 @@ func (x *pl) fullScanLoop(fd *ast.FuncDecl) string {
 			if !ok || x.src(is.Cond) != "err != nil" || is.Else != nil || is.Init != nil {
 				return ind + x.fail(rest[0], "error check after Scan"), true
 			}
-			ge := &guardCtx{ret: g.ret, fall: func(ind string) string { return ind + x.fail(is, "error branch falls through") }}
+			ge := &provloopsGuardCtx{ret: g.ret, fall: func(ind string) string { return ind + x.fail(is, "error branch falls through") }}
 			errTxt := x.guards(is.Body.List, ind+"    ", ge)
 			okTxt := x.guards(rest[1:], ind+"    ", g)
 			return ind + "match sr with\n" +
@@ -909,7 +913,7 @@ func (x *pl) fullScanLoop(fd *ast.FuncDecl) string {
 				return ind + x.fail(s, "send select shape"), true
 			}
 			done = si.done
-			gs := &guardCtx{ret: g.ret, fall: func(ind string) string { return ind + "Act.offer i ammoNum" }}
+			gs := &provloopsGuardCtx{ret: g.ret, fall: func(ind string) string { return ind + "Act.offer i ammoNum" }}
 			return x.guards(si.sendBody, ind, gs), true
 		}
 		return "", false
@@ -922,7 +926,7 @@ func (x *pl) fullScanLoop(fd *ast.FuncDecl) string {
 }
 
 // httpRun: Provider.Run of components/providers/http/provider
-func (x *pl) httpRun(fd *ast.FuncDecl) string {
+func (x *provloopsPl) httpRun(fd *ast.FuncDecl) string {
 	ch, _ := x.deferCloses(fd)
 	x.vars = map[string]string{"err": "errV"}
 	// find `if p.Config.Preload { err = p.loadAmmo(ctx); if err == nil { err = p.runPreloaded(ctx); MAPPING } } else { err = p.runFullScan(ctx) }`
@@ -950,20 +954,20 @@ func (x *pl) httpRun(fd *ast.FuncDecl) string {
 	if !okShape {
 		return x.fail(fd, "Run does not have the shape `if Preload { loadAmmo; if err == nil { runPreloaded; mapping } } else { runFullScan }`")
 	}
-	g := &guardCtx{ret: x.retSentinel(""), fall: func(ind string) string { return ind + "errV" }}
+	g := &provloopsGuardCtx{ret: x.retSentinel(""), fall: func(ind string) string { return ind + "errV" }}
 	return fmt.Sprintf("/-- regenerated from `components/providers/http/provider/provider.go` Run: the deferred function closes `p.Sink` -/\ndef httpRunCloses : Bool := %v\n\n"+
 		"/-- regenerated from Run: what is done with the result of runPreloaded (the result of runFullScan is returned as it is) -/\ndef httpRunMap (errV : RunRes) : RunRes :=\n%s\n\n",
 		ch == "p.Sink", x.guards(mapping, "  ", g))
 }
 
 // scanAmmos of the jsonline decoder (JSON array)
-func (x *pl) scanAmmos(fd *ast.FuncDecl) string {
+func (x *provloopsPl) scanAmmos(fd *ast.FuncDecl) string {
 	x.vars = map[string]string{
 		"d.config.Passes": "passes", "d.passNum": "passNum", "d.ammoNum": "ammoNum", "length": "length", "i": "i",
 		"len(d.ammos)": "length",
 	}
 	item := ""
-	g := &guardCtx{}
+	g := &provloopsGuardCtx{}
 	g.ret = func(r *ast.ReturnStmt) string {
 		if len(r.Results) != 2 {
 			return x.fail(r, "return arity")
@@ -1002,9 +1006,9 @@ func (x *pl) scanAmmos(fd *ast.FuncDecl) string {
 }
 
 // grpcStart: grpcjson (*Provider).start
-func (x *pl) grpcStart(fd *ast.FuncDecl) string {
+func (x *provloopsPl) grpcStart(fd *ast.FuncDecl) string {
 	x.vars = map[string]string{"p.Limit": "limit", "p.Passes": "passes", "ammoNum": "ammoNum", "passNum": "passNum"}
-	outer := forBody(fd)
+	outer := provloopsForBody(fd)
 	if outer == nil || outer.Cond != nil || outer.Init != nil || outer.Post != nil {
 		return x.fail(fd, "no plain outer `for { … }` loop")
 	}
@@ -1048,7 +1052,7 @@ func (x *pl) grpcStart(fd *ast.FuncDecl) string {
 	}
 	// inner body: decode, filter, ammoNum++, select
 	done := ""
-	g := &guardCtx{ret: x.retSentinel("Act.ret "), cont: "Act.tau ammoNum"}
+	g := &provloopsGuardCtx{ret: x.retSentinel("Act.ret "), cont: "Act.tau ammoNum"}
 	g.skip = func(s string) bool {
 		return s == "data := scanner.Bytes()" || s == "a, err := decodeAmmo(data, p.Pool.Get().(*ammo.Ammo))" || strings.HasPrefix(s, "if err != nil { if p.Config.ContinueOnError {")
 	}
@@ -1071,7 +1075,7 @@ func (x *pl) grpcStart(fd *ast.FuncDecl) string {
 	g.fall = func(ind string) string { return ind + x.fail(inner, "inner body falls through without a send") }
 	innerTxt := x.guards(inner.Body.List, "  ", g)
 	// after the inner loop
-	ga := &guardCtx{ret: x.retSentinel("some "), brk: "some RunRes.nil"}
+	ga := &provloopsGuardCtx{ret: x.retSentinel("some "), brk: "some RunRes.nil"}
 	ga.skip = func(s string) bool { return s == "err := scanner.Err()" || s == "_, err = ammoFile.Seek(0, 0)" }
 	ga.special = func(s ast.Stmt, rest []ast.Stmt, ind string) (string, bool) {
 		// I/O error checks: `if err != nil { return errors.Wrap(…) }`
@@ -1095,10 +1099,10 @@ func (x *pl) grpcStart(fd *ast.FuncDecl) string {
 }
 
 // decodeRun: DecodeProvider.Run
-func (x *pl) decodeRun(fd *ast.FuncDecl) string {
+func (x *provloopsPl) decodeRun(fd *ast.FuncDecl) string {
 	x.vars = map[string]string{"p.conf.Limit": "limit", "ammoNum": "ammoNum"}
 	ch, _ := x.deferCloses(fd)
-	loop := forBody(fd)
+	loop := provloopsForBody(fd)
 	if loop == nil || loop.Init != nil || loop.Cond == nil || loop.Post == nil || x.src(loop.Post) != "ammoNum++" {
 		return x.fail(fd, "loop shape `for ; COND; ammoNum++`")
 	}
@@ -1158,7 +1162,7 @@ func (x *pl) decodeRun(fd *ast.FuncDecl) string {
 	}
 	done := ""
 	eof := ""
-	g := &guardCtx{ret: x.retSentinel("Act.ret ")}
+	g := &provloopsGuardCtx{ret: x.retSentinel("Act.ret ")}
 	g.skip = func(s string) bool { return s == "ammo := p.InputPool.Get()" || s == "err = decoder.Decode(ammo)" }
 	g.special = func(s ast.Stmt, rest []ast.Stmt, ind string) (string, bool) {
 		if is, ok := s.(*ast.IfStmt); ok && x.src(is.Cond) == "err == io.EOF" && is.Else == nil {
@@ -1198,10 +1202,10 @@ func (x *pl) decodeRun(fd *ast.FuncDecl) string {
 }
 
 // multiPass: NewMultiPassReader and MultiPassReader.Read
-func (x *pl) multiPass() string {
+func (x *provloopsPl) multiPass() string {
 	var b strings.Builder
 	x.vars = map[string]string{"passes": "passes", "r.passesCount": "passesCount", "r.passesLimit": "passesLimit"}
-	if fd := plMethod(x.pkg, "", "NewMultiPassReader"); fd == nil {
+	if fd := provloopsMethod(x.pkg, "", "NewMultiPassReader"); fd == nil {
 		x.t.errs = append(x.t.errs, "provloops: NewMultiPassReader not found")
 	} else {
 		// if passes == 1 { return r }; …; return &MultiPassReader{rs: rs, passesLimit: passes}
@@ -1218,7 +1222,7 @@ func (x *pl) multiPass() string {
 		fmt.Fprintf(&b, "/-- regenerated from `lib/ioutil2/reader.go` NewMultiPassReader: the source itself is returned (read once) when … -/\n"+
 			"def mprBypass (passes : Nat) : Prop := %s\ninstance (passes : Nat) : Decidable (mprBypass passes) := by unfold mprBypass; exact inferInstance\n\n", cond)
 	}
-	if fd := plMethod(x.pkg, "MultiPassReader", "Read"); fd == nil {
+	if fd := provloopsMethod(x.pkg, "MultiPassReader", "Read"); fd == nil {
 		x.t.errs = append(x.t.errs, "provloops: (*MultiPassReader).Read not found")
 	} else {
 		// n, err = r.rs.Read(p); r.passBytes += int64(n)
